@@ -85,6 +85,14 @@ def make_case(rng, i):
             'load': {'A': 0.004, 'B': 0.0, 'C': 0.0, 'S': 0.0, 'W': 0.0, 'step_t': None, 'step_A': 0.0, 'unit': 'mNm'},
             'ic': {'pos': GEN.Q('AngularPosition', 0.0, 'rad'), 'speed': GEN.Q('AngularSpeed', 0.0, 'rad/s'), 'pwm': None},
             'rules': [], 'stop': None}
+    if i % 13 == 6:
+        # a self-locking worm drive under a load it cannot move: the powertrain is held for (most of) the run -- the axis is the
+        # same grid whatever the powertrain does
+        spec['chain'] = [{'type': 'wormgear', 'name': 'wg', 'n_starts': 1, 'J': GEN.Q('InertiaMoment', Jm * 0.2, 'kgm^2'), 'helix': GEN.Q('Angle', 10, 'deg'),
+                          'pa': GEN.Q('Angle', 20, 'deg'), 'rel': {'type': 'joint'}},
+                         {'type': 'wormwheel', 'name': 'g', 'z': 20, 'J': GEN.Q('InertiaMoment', Jm * 50, 'kgm^2'), 'helix': GEN.Q('Angle', 10, 'deg'),
+                          'pa': GEN.Q('Angle', 20, 'deg'), 'rel': {'type': 'worm', 'f': 0.4}}]
+        spec['load']['A'] = 8 * Tmax * GEN.chain_numbers(spec)['E']
     if i % 5 == 2:
         spec['load']['reentrant'] = 'inplace-time'          # the load function converts the instant it receives in place (sim/build.py)
     sched = [{'op': 'run', 'dt': dt, 'T': T}]
@@ -225,6 +233,8 @@ def one(ctx, i):
         ctx.count('load_functions_converting_the_instant_in_place')
     if info.get('long_run'):
         ctx.count('runs_of_more_than_4000_steps')
+    if len(spec['chain']) == 2:
+        ctx.count('grids_on_a_held_self_locking_drive')
     if info.get('converted_in_place'):
         ctx.count('durations_converted_in_place')
     if info.get('failed_first_attempt'):
